@@ -48,11 +48,15 @@ def make_pool(rng, kind, n):
     pool = []
     seen = set()
     while len(pool) < n:
-        k = kind if kind != "mixed" else rng.choice(["int", "tuple", "str"])
+        k = kind if kind != "mixed" else rng.choice(["int", "tuple", "str", "none"])
         if k == "int":
-            d = ["i", rng.randint(-5, 40)]
+            # falsy 0, small ints, ints beyond the small-int cache (identity != equality) and beyond 2^31
+            d = ["i", rng.choice([rng.randint(-5, 40), rng.randint(-5, 40), 0, rng.randint(257, 1000), 2 ** 40 + rng.randint(0, 3),
+                                  -2 ** 33 - rng.randint(0, 3)])]
+        elif k == "none":
+            d = ["n", None]
         elif k == "tuple":
-            d = ["t", [rng.randint(0, 3) for _ in range(rng.choice([1, 2, 2, 3]))]]
+            d = ["t", [rng.randint(0, 3) for _ in range(rng.choice([0, 1, 2, 2, 3]))]]
         else:
             d = ["s", "".join(rng.choice("abc") for _ in range(rng.randint(0, 3)))]
         key = json.dumps(d)
@@ -74,9 +78,10 @@ def gen_init(rng, n):
         return None
     if r < 0.40:
         return {"kind": "none", "elems": []}
-    kind = rng.choice(["list", "list", "tuple", "set", "frozenset", "gen"])
+    kind = rng.choice(["list", "list", "tuple", "set", "frozenset", "gen", "iter", "map", "dictkeys"])
     m = rng.choice([0, 1, 2, 3, 5, 8])
-    return {"kind": kind, "elems": [rng.randrange(n) for _ in range(m)]}
+    # "kw": the argument is passed as elements=...; list-like containers are mutated by the driver after construction
+    return {"kind": kind, "elems": [rng.randrange(n) for _ in range(m)], "kw": rng.random() < 0.3}
 
 
 def gen_uf_history(rng, maxlen=40, ambient=True):
@@ -97,9 +102,17 @@ def gen_uf_history(rng, maxlen=40, ambient=True):
             args = [rng.choice([rng.randint(0, n), rng.randint(0, n), rng.randint(-n - 1, -1), n, n + 1,
                                 len({a for o in ops if o[0] in ("add", "union") for a in o[1:]}
                                     | set(init["elems"] if init else []))])]
+            if rng.random() < 0.25:
+                args.append("i64")  # the index as a numpy integer
         if nm == "union" and rng.random() < 0.08:
             args[1] = args[0]  # self-union
         ops.append([nm] + args)
+        if rng.random() < 0.12:
+            ops.append(list(ops[-1]))  # the same call twice in a row
+    if rng.random() < 0.5:
+        # audit tail: after whatever happened (incl. refused calls on absent elements / bad indices, caught by the
+        # caller) every count, view and membership is asked once more
+        ops += [["len"], ["ncomps"], ["roots"], ["components"], ["mapping"]] + [["contains", a] for a in range(n)]
     case = {"kind": kind, "elts": pool, "init": init, "ops": ops}
     if ambient and rng.random() < 0.3:
         # a second structure over the same element objects, alive in the same session, operations interleaved
@@ -108,6 +121,37 @@ def gen_uf_history(rng, maxlen=40, ambient=True):
         case["ambient"] = {"init": gen_init(rng, k),
                            "ops": [[o[0]] + ([o[1]] if o[0] == "getitem" else [a % k for a in o[1:]]) for o in other["ops"]]}
     return case
+
+
+def gen_uf_large(rng):
+    """a structure with ~300 elements: indices, roots and counts beyond 256 (small-int identity), long parent chains"""
+    n = rng.randint(280, 330)
+    pool = [["i", 7 * i - 50] for i in range(n)]
+    m = rng.randint(265, n)
+    elems = list(range(m)) + [rng.randrange(m) for _ in range(10)]
+    if rng.random() < 0.5:
+        rng.shuffle(elems)
+    ops = []
+    hi = lambda: rng.randrange(n) if rng.random() < 0.3 else rng.randrange(max(1, m - 40), n)
+    for _ in range(rng.randint(60, 120)):
+        r = rng.random()
+        if r < 0.55:
+            ops.append(["union", hi(), hi()])
+        elif r < 0.7:
+            ops.append(["connected", hi(), hi()])
+        elif r < 0.8:
+            ops.append(["find", hi()])
+        elif r < 0.87:
+            ops.append(["getitem", rng.choice([m - 1, m, 256, 257, 258, n - 1, n, -1, hi()])])
+        elif r < 0.93:
+            ops.append(["ncomps"])
+        elif r < 0.97:
+            ops.append(["len"])
+        else:
+            ops.append(["component", hi()])
+    # (no roots(): the model's answer check is quadratic in the number of roots with unary indices)
+    ops += [["ncomps"], ["len"], ["components"]]
+    return {"kind": "int", "elts": pool, "init": {"kind": "list", "elems": elems}, "ops": ops, "large": True}
 
 
 def pq_ops(c):
@@ -121,28 +165,63 @@ def gen_pq_history(rng, maxlen=40, ambient=True):
         return {"ops": gen_pq_history(rng, maxlen, False),
                 "ambient": [gen_pq_history(rng, maxlen, False) for _ in range(rng.choice([1, 1, 2]))]}
     L = rng.choice([0, 1, 2, 4, 8, 16, 30, maxlen])
-    style = rng.choice(["ties", "ties", "spread", "inf", "neg"])
+    style = rng.choice(["ties", "ties", "spread", "inf", "neg", "scale"])
     ops = []
     nxt = 0
+    pend = 0
+
+    def prio():
+        if style == "ties":
+            w = rng.choice([0, 1, 1, 2])
+        elif style == "spread":
+            w = rng.randint(-50, 50) / 4.0
+        elif style == "inf":
+            w = rng.choice([0, 1, 2.5, "inf", "-inf", "inf"])
+        elif style == "scale":
+            # magnitudes 1e-7 .. 1e39, integers beyond 2^31 / 2^40 (the order is all that matters)
+            w = rng.choice([1e-7, 2e-7, -1e-7, 0, 1e39, -1e39, 2e39, 2 ** 40, 2 ** 40 + 1, -2 ** 33, 2 ** 31, 1])
+        else:
+            w = -rng.randint(0, 6) / 2.0
+        # representation of the number handed to push: python int/float/bool, numpy scalars
+        reps = ["py"]
+        if isinstance(w, (int, float)):
+            if float(w) == int(w) and abs(w) < 2 ** 62:
+                reps += ["int", "i64"]
+                if w in (0, 1):
+                    reps += ["bool"]
+            if abs(w) < 2 ** 20 and float(w) * 4 == int(float(w) * 4):
+                reps += ["f32"]
+            reps += ["f64", "float"]
+        return w, rng.choice(reps)
+
     for _ in range(L):
         r = rng.random()
         if r < 0.5:
-            if style == "ties":
-                w = rng.choice([0, 1, 1, 2])
-            elif style == "spread":
-                w = rng.randint(-50, 50) / 4.0
-            elif style == "inf":
-                w = rng.choice([0, 1, 2.5, "inf", "-inf", "inf"])
-            else:
-                w = -rng.randint(0, 6) / 2.0
-            ops.append(["push", nxt, w])
+            w, rp = prio()
+            ops.append(["push", nxt, w, rp])
             nxt += 1
+            pend += 1
         elif r < 0.8:
             ops.append([rng.choice(["pop", "get"])])
+            pend = max(0, pend - 1)
         elif r < 0.9:
             ops.append(["empty"])
         else:
             ops.append(["front"])
+        if rng.random() < 0.1:
+            o = list(ops[-1])
+            if o[0] == "push":
+                o[1] = nxt
+                nxt += 1
+                pend += 1
+            elif o[0] in ("pop", "get"):
+                pend = max(0, pend - 1)
+            ops.append(o)
+    if rng.random() < 0.4:
+        # drain tail: empty the queue, one refused pop more (IndexError caught by the caller), then use it again
+        ops += [["empty"]] + [[rng.choice(["pop", "get"])] for _ in range(pend + 1)] + [["empty"], ["front"]]
+        w, rp = prio()
+        ops += [["push", nxt, w, rp], ["empty"], ["front"], ["pop"], ["get"], ["empty"]]
     return ops
 
 
@@ -178,26 +257,36 @@ OPC = {"add": "Add", "union": "Union", "find": "Find", "connected": "Connected",
 def uf_case_term(case, obs, order=None):
     items = []
     for op, o in zip(case["ops"], obs):
-        t = OPC[op[0]] + "".join(" " + zlit(a) for a in op[1:])
+        t = OPC[op[0]] + "".join(" " + zlit(a) for a in (op[1:2] if op[0] == "getitem" else op[1:]))
         items.append("(%s, %s)" % (t if len(op) == 1 else "(" + t + ")", obs_term(o)))
     return "(%s, %s)" % ("None" if order is None else "(Some %s)" % zlist(order), coq_list(items))
 
 
-BIG = 10 ** 9
-
-
-def prio_z(w):
+def pval(w):
+    """priority as a float (the order on floats is the order the property speaks of)"""
     if w == "inf":
-        return BIG
+        return math.inf
     if w == "-inf":
-        return -BIG
-    z = w * 4
-    assert z == int(z)
-    return int(z)
+        return -math.inf
+    return float(w)
+
+
+def prio_ranks(ops):
+    """order-preserving map of the priorities of a history into Z (any magnitude, +-inf)"""
+    vals = sorted({pval(op[2]) for op in ops if op[0] == "push"})
+    return {v: 2 * i for i, v in enumerate(vals)}
 
 
 def pq_case_term(ops, obs):
     ops = pq_ops(ops)
+    rk = prio_ranks(ops)
+
+    def prio_z(w):
+        # a priority never pushed (only a wrong implementation can answer one) maps outside the range
+        try:
+            return rk.get(pval(w), 10 ** 9)
+        except (TypeError, ValueError):
+            return 10 ** 9
     items = []
     for op, (o, data) in zip(ops, obs):
         if op[0] == "push":
@@ -240,6 +329,9 @@ def oracle_uf(case, obs, order=None):
         if init["kind"] in ("set", "frozenset"):
             if sorted(order) != sorted(set(init["elems"])):
                 return "op 0 constructor: a set of %s iterated as %s" % (sorted(set(init["elems"])), order)
+        elif init["kind"] == "dictkeys":
+            if list(order) != list(dict.fromkeys(init["elems"])):
+                return "op 0 constructor: the keys of a dict built from %s iterated as %s" % (init["elems"], order)
         elif list(order) != list(init["elems"]):
             return "op 0 constructor: %s iterated as %s" % (init["elems"], order)
         for a in order:   # the constructor adds each element; duplicates are no-ops
@@ -300,7 +392,10 @@ def oracle_pq(ops, obs):
     pending = []  # list of (x, prio)
 
     def val(w):
-        return math.inf if w == "inf" else (-math.inf if w == "-inf" else w)
+        try:
+            return pval(w)
+        except (TypeError, ValueError):
+            return w
 
     for k, (op, (o, data)) in enumerate(zip(ops, obs)):
         if op[0] == "push":
@@ -329,7 +424,11 @@ def oracle_pq(ops, obs):
                     return "op %d front on the empty queue answered %s" % (k, o)
             elif o[0] != "item" or (o[1], val(o[2])) not in pending or val(o[2]) != min(p for _, p in pending):
                 return "op %d front answered %s, not a pending minimum" % (k, o)
-        if sorted((x, val(p)) for x, p in data) != sorted(pending):
+        try:
+            same = sorted((x, val(p)) for x, p in data) == sorted(pending)
+        except TypeError:
+            same = False
+        if not same:
             return "op %d: queue content %s is not the pending multiset %s" % (k, data, pending)
     return None
 
@@ -376,7 +475,11 @@ def run(ctx):
                 "starts with a constructor call (no argument, None, or a list/tuple/set/frozenset/generator of elements with "
                 "duplicates and mixed kinds); 30% of the cases have a second UnionFind (resp. 1-2 more PriorityQueue objects) "
                 "alive in the same session with interleaved operations; queue payloads are of mutually unorderable kinds "
-                "(int, str, tuple, None, complex); "
+                "(int, str, tuple, None, complex); priorities as python int/float/bool and numpy scalars, magnitudes 1e-7..1e39 "
+                "and beyond 2^31 (mapped to Z by rank); elements incl. 0, None, (), '', ints > 256 and > 2^31; a few structures "
+                "with ~300 elements; calls repeated twice in a row; half of the histories end with an audit of all counts, views "
+                "and memberships (resp. a drain of the queue, a refused pop, and reuse); views' results and the constructor's "
+                "container are mutated by the caller afterwards; constructor/push in positional and keyword form; "
                 "queue histories: <=40 ops with ties, negatives, +-inf. Non-trivial = at least one union (resp. one pop "
                 "with >=2 pending) ; distinct = by canonical JSON of the history")
     ctx.assumptions += ["hashable elements enter the model as integer codes (the structure only hashes/compares them)",
@@ -393,6 +496,7 @@ def run(ctx):
         for f in sorted(os.listdir(cdir)):
             corpus.append(json.load(open(os.path.join(cdir, f))))
     ufs = [c["uf"] for c in corpus if "uf" in c] + [gen_uf_history(ctx.rng) for _ in range(n_uf)]
+    ufs += [gen_uf_large(ctx.rng) for _ in range(6 if quick else 60)]
     pqs = [c["pq"] for c in corpus if "pq" in c] + [gen_pq_history(ctx.rng) for _ in range(n_pq)]
     if not quick:
         # exhaustive small space (support only): all histories of length <= 4 of union/connected/ncomps over 3 ints
@@ -422,6 +526,8 @@ def run(ctx):
                                        + ("+dup" if len(set((c.get("init") or {}).get("elems", []))) < len((c.get("init") or {}).get("elems", [])) else "")))
         if c.get("ambient"):
             ctx.count("uf with a second structure alive")
+        if c.get("large"):
+            ctx.count("uf large (>256 elements)")
         for op, ob in zip(c["ops"], o):
             ctx.count("uf op " + op[0])
             if ob[0] in ("valueerror", "indexerror", "other"):
